@@ -40,7 +40,7 @@ def run(F, rep, tier):
     binding_rule(F, rep)
     key_coverage_rule(F, rep)
     normalisation_rule(F, rep, tier)
-    name_characters_rule(F, rep)
+    name_characters_rule(F, rep, tier)
     # premise (C13): parser actions leave the parsing scope balanced - a context popped or left behind by one construct changes which names the lexer knows afterwards
     from props import c13
     r3 = rep.rule("R13.3", "parser actions composed along the grammar: every start alternative leaves the parsing scope at its entry depth; names are added at depth >= 1 only")
@@ -929,7 +929,7 @@ NAME_START = [(0x3F, 0x3F), (0x41, 0x5A), (0x5F, 0x5F), (0x61, 0x7A), (0xC0, 0xD
 NAME_PART_EXTRA = [(0x30, 0x39), (0xB7, 0xB7), (0x300, 0x36F), (0x203F, 0x2040)]
 
 
-def name_characters_rule(F, rep):
+def name_characters_rule(F, rep, tier="quick"):
     """FEEL grammar rules 28 / 29 (DMN 1.3, 10.3.1.2): which characters may start / continue a name. The lexer's two predicates are folded on every boundary of the specified
     ranges (lo-1, lo, hi, hi+1) and on samples inside them - among them characters that are no letters in Unicode's sense (the euro sign, the degree Celsius sign, ZWNJ, a
     Devanagari virama) - and must answer exactly as the grammar."""
@@ -943,6 +943,8 @@ def name_characters_rule(F, rep):
     for lo, hi in NAME_START + NAME_PART_EXTRA:
         reps |= {lo - 1, lo, hi, hi + 1, (lo + hi) // 2}
     reps |= {0x20AC, 0x2103, 0x94D, 0xE48, 0xD7, 0xF7, 0x37E, 0x2000, 0x20, 0x2D, 0x2B, 0x2E, 0x2F, 0x27, 0x2A, 0x40, 0x5B, 0x60, 0x7B, 0x1F600, 0xE9, 0x4E2D, 0x3000}
+    if tier == "thorough":
+        reps |= set(range(0, 0x3000)) | {c for lo, hi in NAME_START + NAME_PART_EXTRA for c in range(max(0, lo - 3), lo + 4)} | {c for lo, hi in NAME_START + NAME_PART_EXTRA for c in range(hi - 3, hi + 4)}
     reps = sorted(c for c in reps if 0 <= c <= 0x10FFFF and not (0xD800 <= c <= 0xDFFF))
     for simple, part in (("is_name_start_char", False), ("is_name_part_char", True)):
         fns = [n for n in F.hir if n.startswith("dmntk_feel_parser::lexer::") and n.endswith("::" + simple)]
